@@ -224,7 +224,7 @@ def describe(w):
         return dict(kind="idx", t=0, iv=[1], e=("idx", 2, [3]))
     if k == "ixcmp":
         # `T(i) op= A` is `T(i) = noalias(T(i)) op A`
-        return dict(kind="idx", t=0, iv=[1], e=(w[1], ("noalias", ("idx", 0, [1])), A(2)))
+        return dict(kind="idx", t=0, iv=[1], e=(w[1], ("noalias", ("idx", 0, [1])), A(2)), seq=True)
     if k == "ixt2":
         return dict(kind="idx", t=0, iv=[1, 2], e=A(3))
     if k == "ixe2":
@@ -680,8 +680,17 @@ class Oracle:
         elif k == "idx":
             ivs = [P.geoms[i].iv for i in d["iv"]]
             ixs = list(itertools.product(*[range(len(v)) for v in ivs]))
-            vals = [self.ev(d["e"], P, ix) for ix in ixs]
-            writes = [(tg.root, tg.addr(tuple(v[i] for v, i in zip(ivs, ix))), val) for ix, val in zip(ixs, vals)]
+            if d.get("seq"):
+                # `T(i) op= A` reads the target element it is about to write: with a repeated index the scalar loop
+                # `for k: T[i[k]] = T[i[k]] op A[k]` sees the earlier update
+                for ix in ixs:
+                    ad = tg.addr(tuple(v[i] for v, i in zip(ivs, ix)))
+                    val = self.ev(d["e"], P, ix)
+                    self.mem[tg.root][ad] = val
+                    writes.append((tg.root, ad, val))
+            else:
+                vals = [self.ev(d["e"], P, ix) for ix in ixs]
+                writes = [(tg.root, tg.addr(tuple(v[i] for v, i in zip(ivs, ix))), val) for ix, val in zip(ixs, vals)]
         elif k == "reduce":
             sg = P.geoms[d["shape"]]
             xs = [self.ev(d["e"], P, ix) for ix in sg.indices()]
